@@ -16,15 +16,17 @@ def plan(pid, tier, seed):
     quick = tier == "quick"
     if quick:
         mc = [
-            # layout: 14 580 histories, 189 540 states; sampled
-            {"module": "X01MoveClass", "cfg": "X01MoveClass_MC_quick.cfg", "emit": True, "sample": 2500, "properties": PROPS, "timeout": 900},
-            # which classes exist / who imports whom / 1..2 moves in either order: 2 240 histories, all replayed
+            # layout (star-shaped): 857 histories, 11 141 states; all replayed
+            {"module": "X01MoveClass", "cfg": "X01MoveClass_MC_quick.cfg", "emit": True, "sample": None, "properties": PROPS, "timeout": 900},
+            # which classes exist / who imports whom / 1..2 moves in either order: 1 120 histories, all replayed
             {"module": "X01MoveClass", "cfg": "X01MoveClass_MC_multi.cfg", "emit": True, "sample": None, "properties": PROPS, "timeout": 900},
             # one or two projects in one process, Analysis once or twice: 272 histories, all replayed
             {"module": "X01MoveClass", "cfg": "X01MoveClass_MC_pair.cfg", "emit": True, "sample": None, "properties": PROPS, "timeout": 900},
         ]
     else:
         mc = [
+            {"module": "X01MoveClass", "cfg": "X01MoveClass_MC_quick.cfg", "emit": True, "sample": None, "properties": PROPS, "timeout": 900},
+            # layout (product): 25 920 histories
             {"module": "X01MoveClass", "cfg": "X01MoveClass_MC_thorough.cfg", "emit": True, "sample": None, "properties": PROPS,
              "timeout": 3600, "coverage": True},
             {"module": "X01MoveClass", "cfg": "X01MoveClass_MC_multi.cfg", "emit": True, "sample": None, "properties": PROPS, "timeout": 900},
@@ -35,7 +37,7 @@ def plan(pid, tier, seed):
         "needs_coca": False,
         "mc": mc,
         "gen": [],
-        "rand": 1200 if quick else 25000,
+        "rand": 1500 if quick else 25000,
         "trace": TRACE,
         "run_timeout": 6000,
     }
